@@ -33,6 +33,20 @@ func EncodeRawXMLElement(v interface{}) (*RawXMLValue, error) {
 
 // UnmarshalXML implements xml.Unmarshaler.
 func (val *RawXMLValue) UnmarshalXML(d *xml.Decoder, start xml.StartElement) error {
+	// Element and attribute names are already namespace-expanded and the
+	// encoder declares the namespaces it needs again: keeping the captured
+	// declarations would write them twice (duplicate xmlns attributes are
+	// not well-formed XML).
+	start = start.Copy()
+	attrs := start.Attr[:0]
+	for _, attr := range start.Attr {
+		if attr.Name.Space == "xmlns" || (attr.Name.Space == "" && attr.Name.Local == "xmlns") {
+			continue
+		}
+		attrs = append(attrs, attr)
+	}
+	start.Attr = attrs
+
 	val.tok = start
 	val.children = nil
 	val.out = nil
@@ -59,18 +73,28 @@ func (val *RawXMLValue) UnmarshalXML(d *xml.Decoder, start xml.StartElement) err
 
 // MarshalXML implements xml.Marshaler.
 func (val *RawXMLValue) MarshalXML(e *xml.Encoder, start xml.StartElement) error {
+	return val.marshalXML(e, false)
+}
+
+// marshalXML writes the value. inDefaultNS tells whether an enclosing element
+// of this raw value has declared a default namespace, which an element without
+// namespace must undeclare in order not to inherit it.
+func (val *RawXMLValue) marshalXML(e *xml.Encoder, inDefaultNS bool) error {
 	if val.out != nil {
 		return e.Encode(val.out)
 	}
 
 	switch tok := val.tok.(type) {
 	case xml.StartElement:
+		if tok.Name.Space == "" && inDefaultNS {
+			tok = tok.Copy()
+			tok.Attr = append(tok.Attr, xml.Attr{Name: xml.Name{Local: "xmlns"}, Value: ""})
+		}
 		if err := e.EncodeToken(tok); err != nil {
 			return err
 		}
 		for _, child := range val.children {
-			// TODO: find a sensible value for the start argument?
-			if err := child.MarshalXML(e, xml.StartElement{}); err != nil {
+			if err := child.marshalXML(e, tok.Name.Space != ""); err != nil {
 				return err
 			}
 		}
